@@ -1360,9 +1360,11 @@ func main() {
 	if err := genTables(*repo, *out); err != nil {
 		fmt.Fprintf(os.Stderr, "go2coq: TablesGen.v: %v\n", err)
 		report["TablesGen.v"] = map[string]interface{}{"error": err.Error()}
+		report["MailboxTablesGen.v"] = map[string]interface{}{"error": err.Error()}
 		failed = true
 	} else {
-		report["TablesGen.v"] = map[string]interface{}{"functions": []string{"select / access / call tables of gbn/*.go"}}
+		report["TablesGen.v"] = map[string]interface{}{"functions": []string{"select / channel-operation / access / lock / call tables of gbn/*.go"}}
+		report["MailboxTablesGen.v"] = map[string]interface{}{"functions": []string{"select / channel-operation / access / lock / call tables of mailbox/*.go"}}
 	}
 	b, _ := json.MarshalIndent(report, "", " ")
 	_ = os.WriteFile(filepath.Join(*out, "go2coq_report.json"), b, 0o644)
